@@ -256,6 +256,8 @@ pub struct Bias {
     pub json: u32,
     pub counters: u32,
     pub ttl_toggle: bool,  // reopen may change the TTL switch
+    pub get_weight: u32,
+    pub few_keys: bool,
 }
 
 impl Default for Bias {
@@ -285,6 +287,8 @@ impl Default for Bias {
             json: 3,
             counters: 3,
             ttl_toggle: true,
+            get_weight: 14,
+            few_keys: false,
         }
     }
 }
@@ -359,7 +363,7 @@ pub fn keys_strategy(b: &Bias) -> BoxedStrategy<Vec<Vec<u8>>> {
     } else {
         wone![6 => short, 2 => single, 3 => heavy].boxed()
     };
-    let range = if b.many_keys { 40..130usize } else { 3..10usize };
+    let range = if b.many_keys { 40..130usize } else if b.few_keys { 2..5usize } else { 3..10usize };
     proptest::collection::vec(key, range)
         .prop_map(|mut ks| {
             ks.sort();
@@ -468,7 +472,7 @@ pub fn op_strategy(b: &Bias) -> BoxedStrategy<Op> {
         20 => (k(), v(), ts(), any::<bool>()).prop_map(|(k, v, ts, bytes)| Op::Insert { k, v, ts, bytes }),
         b.ttl_ops * 2 => (k(), v(), ttl_secs(), ts(), any::<bool>())
             .prop_map(|(k, v, ttl, ts, bytes)| Op::InsertTtl { k, v, ttl, ts, bytes }),
-        14 => (k(), any::<bool>()).prop_map(|(k, bytes)| Op::Get { k, bytes }),
+        b.get_weight => (k(), any::<bool>()).prop_map(|(k, bytes)| Op::Get { k, bytes }),
         2 => k().prop_map(|k| Op::GetSize { k }),
         2 => k().prop_map(|k| Op::Contains { k }),
         8 => (k(), ts()).prop_map(|(k, ts)| Op::Delete { k, ts }),
